@@ -10,4 +10,5 @@ SCR="$(mktemp -d /tmp/verif-scratch-XXXXXX)"
 trap 'rm -rf "$SCR"' EXIT
 rsync -a --exclude .git --exclude build --exclude dist --exclude docs --exclude Examples --exclude '*.egg-info' /repo/ "$SCR/repo/"
 ( cd "$SCR/repo" && patch -p1 $REV --quiet < "$PATCH" ) || { echo "patch failed" >&2; exit 3; }
-VERIF_REPO="$SCR/repo" PYTHONPATH="$SCR/repo" "$@"
+mkdir -p "$SCR/evidence" "$SCR/replays"
+VERIF_EVIDENCE_DIR="$SCR/evidence" VERIF_REPLAY_DIR="$SCR/replays" VERIF_REPO="$SCR/repo" PYTHONPATH="$SCR/repo" "$@"
